@@ -91,6 +91,7 @@ func (col *collector) sorted() []*vioRec {
 }
 
 type explorer struct {
+	alpha     []int // the events offered as successors (indices into sigma)
 	c         *vk.Ctx
 	bt        *battery
 	workers   int
@@ -420,10 +421,10 @@ func (x *explorer) runCap(capacity int) (perDepth []int, closed bool) {
 		okv := make([][]bool, len(frontier))
 		x.parallelFor(len(frontier), func(i int) {
 			nd := frontier[i]
-			r := make([]succ, len(sigma))
-			o := make([]bool, len(sigma))
-			for e := range sigma {
-				r[e], o[e] = x.transition(capacity, nd, e, rep(appendHist(nd.hist, e)))
+			r := make([]succ, len(x.alpha))
+			o := make([]bool, len(x.alpha))
+			for k, e := range x.alpha {
+				r[k], o[k] = x.transition(capacity, nd, e, rep(appendHist(nd.hist, e)))
 			}
 			res[i], okv[i] = r, o
 		})
@@ -434,11 +435,11 @@ func (x *explorer) runCap(capacity int) (perDepth []int, closed bool) {
 		var next []node
 		var keys []stateKey
 		for i, nd := range frontier {
-			for e := range sigma {
-				if !okv[i][e] {
+			for k, e := range x.alpha {
+				if !okv[i][k] {
 					continue
 				}
-				s := res[i][e]
+				s := res[i][k]
 				if _, seen := visited[s.key]; seen {
 					continue
 				}
